@@ -66,8 +66,8 @@ def parse_model(rep, suite, order):
     return cases, tuple(int(v) for v in xs[1][1:5]), int(xs[2])
 
 
-def sim_expected(suite, order):
-    r = T.simulate(suite, order)
+def sim_expected(suite, order, only_first_file=False):
+    r = T.simulate(suite, order, only_first_file)
     if r is None:
         return "abort"
     cases, counter, ex = r
@@ -101,19 +101,41 @@ def by_test(cases):
     """the cases of each UNIT of the independence claim: an ungrouped test, or a whole describe group"""
     d = {}
     for c in cases:
+        if c[1] in ("T9001", "T9002"):
+            continue                    # the mock targets: present once per test file of the run
         d.setdefault(("group " + c[0]) if c[0] else ("test " + c[1]), []).append(c[1:])
     return d
 
 
-def cli_run(falco, workdir, main_text, test_text, cov, as_json=True):
+def cli_run(falco, workdir, tree, as_json=True):
+    """the real process on the file tree of gen/testrungen.Suite.tree"""
     if os.path.isdir(workdir):
         shutil.rmtree(workdir)
-    os.makedirs(workdir)
-    open(os.path.join(workdir, "main.vcl"), "w").write(main_text)
-    open(os.path.join(workdir, "main.test.vcl"), "w").write(test_text)
-    cmd = [falco, "test"] + (["-json"] if as_json else []) + (["--coverage"] if cov else []) + ["main.vcl"]
-    p = subprocess.run(cmd, cwd=workdir, stdout=subprocess.PIPE, stderr=subprocess.PIPE, text=True, timeout=120)
-    return p.returncode, p.stdout, p.stderr
+    for rel, text in tree["files"].items():
+        p = os.path.join(workdir, rel)
+        os.makedirs(os.path.dirname(p), exist_ok=True)
+        open(p, "w").write(text)
+    cmd = [falco, "test"] + (["-json"] if as_json else []) + (["--coverage"] if tree["cov"] else [])
+    for d in tree["include_paths"]:
+        cmd += ["-I", d]
+    if tree["filter"]:
+        cmd += ["--filter", tree["filter"]]
+    cmd += [tree["main"]]
+    for limit in (180, 600):
+        try:
+            p = subprocess.run(cmd, cwd=workdir, stdout=subprocess.PIPE, stderr=subprocess.PIPE, text=True, timeout=limit)
+            return p.returncode, p.stdout, p.stderr
+        except subprocess.TimeoutExpired:
+            continue                      # a busy machine: once more with a 10 minute limit before it is a finding
+    return -9, "", "falco test did not finish within 10 minutes (second attempt)"
+
+
+def flat_tree(mainv, testv, cov):
+    return {"cov": bool(cov), "files": {"main.vcl": mainv, "main.test.vcl": testv}, "main": "main.vcl", "include_paths": [], "filter": ""}
+
+
+def tree_request(tree):
+    return "tree " + json.dumps(tree).encode().hex()
 
 
 def parse_cli_json(out):
@@ -167,7 +189,7 @@ def run(ctx):
     n_cache_facts = cache_is_per_interpreter(ctx)
 
     # ------------------------------------------------------------------ suites
-    n_suites = 500 if thorough else 40
+    n_suites = 500 if thorough else 30
     g = T.TestRunGen(rng)
     suites = [g.suite() for _ in range(n_suites)]
     # a few fixed shapes: all passing; one skipped + one runtime failure (exit status must not net them out)
@@ -179,93 +201,131 @@ def run(ctx):
     # the dimension "tests that mutate per-test state through every testing.* helper, tests that observe it,
     # in every order": one exhaustive suite per resource + random mixtures (fixed share of the budget)
     n_plain = len(suites)
+    # the STRUCTURE of what is under test is a dimension of its own: the same helper suites with the declarations
+    # (tables, backends, subroutines) in main.vcl, in modules included from its directory (nested include for the
+    # table), in an -I directory; the tests in one or in two *.test.vcl files; --filter
     for x in range(len(T.RES)):
-        suites.append(g.resource_suite(x))
-    for _ in range(400 if thorough else 24):
+        for lay in ("flat", "include") if not thorough else T.LAYOUTS:
+            rs = g.resource_suite(x)
+            rs.layout = lay
+            rs.nfiles = 2 if lay != "flat" else 1
+            suites.append(rs)
+    n_res_suites = len(suites) - n_plain
+    for _ in range(400 if thorough else 20):
         suites.append(g.stateful_suite())
     n_before_groups = len(suites)
-    for _ in range(400 if thorough else 30):
+    for _ in range(400 if thorough else 24):
         suites.append(g.grouped_suite())
+    for k, su in enumerate(suites):
+        if not (n_plain <= k < n_plain + n_res_suites):
+            su.layout = rng.choice(["flat", "flat", "include", "include", "ipath"])
+            su.nfiles = rng.choice([1, 1, 2])
     group_scope_check(ctx, impl)
-
-    reqs, mreqs, meta = [], [], []
-    for si, s in enumerate(suites):
-        main = s.main_vcl().encode().hex()
-        its = s.items()
-        for oi in orders_for(rng, len(its), thorough):
-            order = [its[k] for k in oi]
-            tv = s.test_vcl(order).encode().hex()
-            for cov in (0, 1):
-                reqs.append("%d %s %s" % (cov, main, tv))
-                mreqs.append(s.model_request(cov, order))
-                meta.append((si, order, cov))
-    ireps = V.run_batch(impl, reqs, hang_s=30)
-    mreps = V.run_batch([model], mreqs, hang_s=60)
 
     agree = 0
     nontrivial = set()
     verdicts = {"pass": 0, "assert": 0, "runtime": 0, "skip": 0}
     n_abort = 0
-    ref = {}            # (suite, unit) -> cases of that test in the first run (order / coverage independence)
     n_cases = 0
-    for (si, order, cov), ir, mr in zip(meta, ireps, mreps):
-        s = suites[si]
-        its = s.items()
-        replay = {"main.vcl": s.main_vcl(), "main.test.vcl": s.test_vcl(order), "coverage": bool(cov), "order": order}
-        api = parse_api(ir)
-        if api is None:
-            ctx.violation("test runner did not complete on a generated suite: %s" % (ir or "no reply")[:200], replay)
-            continue
-        if mr is None or not mr.startswith(("(cases", "abort")):
-            ctx.violation("model driver failed: %s" % (mr or "")[:200], dict(replay, model_request=mreqs[0][:100]))
-            continue
-        mod = parse_model(mr, s, order)
-        sim = sim_expected(s, order)
-        if mod != sim:
-            ctx.violation("Coq model and the generator's evaluator disagree (model %s / generator %s)" % (str(mod)[:300], str(sim)[:300]), replay)
-            continue
-        if api == "abort" or mod == "abort":
-            if api != mod:
-                ctx.violation("a raising hook: test runner says %s, model says %s" % (str(api)[:200], str(mod)[:200]), replay)
+    n_api = n_api_helper = n_api_grouped = n_filter = 0
+    watchdog = {"retried": 0, "recovered": 0, "reproduced": 0}
+    layouts, nfiles_runs = {}, {}
+    import hashlib
+    CH = 40                                   # suites per chunk: only counters survive a chunk
+    for c0 in range(0, len(suites), CH):
+        ref = {}        # (suite, unit) -> cases of that unit in the first run (order / coverage independence)
+        reqs, mreqs, meta = [], [], []
+        for si in range(c0, min(c0 + CH, len(suites))):
+            s = suites[si]
+            its = s.items()
+            for oi in orders_for(rng, len(its), thorough):
+                order = [its[k] for k in oi]
+                for cov in (0, 1):
+                    reqs.append(tree_request(s.tree(order, cov)))
+                    mreqs.append(s.model_request(cov, order))
+                    meta.append((si, order, cov, False))
+            if s.nfiles > 1:
+                # --filter selects one of the test files of the run
+                reqs.append(tree_request(s.tree(its, 0, only_first_file=True)))
+                mreqs.append(s.model_request(0, its, only_first_file=True))
+                meta.append((si, its, 0, True))
+                n_filter += 1
+        ireps, st = U.robust_batch(impl, reqs, hang_s=120)
+        for k in st:
+            watchdog[k] += st[k]
+        mreps, st = U.robust_batch([model], mreqs, hang_s=180)
+        for k in st:
+            watchdog[k] += st[k]
+        n_api += len(reqs)
+        n_api_helper += sum(1 for m in meta if n_plain <= m[0] < n_before_groups)
+        n_api_grouped += sum(1 for m in meta if m[0] >= n_before_groups)
+        for (si, order, cov, filt), ir, mr in zip(meta, ireps, mreps):
+            s = suites[si]
+            its = s.items()
+            tr = s.tree(order, cov, only_first_file=filt)
+            replay = {"files": tr["files"], "include_paths": tr["include_paths"], "filter": tr["filter"], "coverage": bool(cov),
+                      "layout": s.layout, "test_files": s.nfiles, "order": order,
+                      "main.vcl": tr["files"]["main.vcl"], "main.test.vcl": "\n".join(v for k, v in sorted(tr["files"].items()) if k.endswith(".test.vcl"))}
+            layouts[s.layout] = layouts.get(s.layout, 0) + 1
+            nfiles_runs[s.nfiles] = nfiles_runs.get(s.nfiles, 0) + 1
+            api = parse_api(ir)
+            if api is None:
+                ctx.violation("test runner did not complete on a generated suite (reproduced when run alone, twice, with 4x the time limit): %s" % (ir or "no reply")[:200], replay)
+                continue
+            if mr is None or not mr.startswith(("(cases", "abort")):
+                ctx.violation("model driver failed: %s" % (mr or "")[:200], dict(replay, model_request=mreqs[0][:100]))
+                continue
+            mod = parse_model(mr, s, order)
+            sim = sim_expected(s, order, filt)
+            if mod != sim:
+                ctx.violation("Coq model and the generator's evaluator disagree (model %s / generator %s)" % (str(mod)[:300], str(sim)[:300]), replay)
+                continue
+            if api == "abort" or mod == "abort":
+                if api != mod:
+                    ctx.violation("a raising hook: test runner says %s, model says %s" % (str(api)[:200], str(mod)[:200]), replay)
+                else:
+                    agree += 1
+                    n_abort += 1
+                continue
+            cases, counter, ex = api
+            n_cases += len(cases)
+            # ---- direct oracle on the implementation
+            npass = sum(1 for c in cases if not c[3] and c[4] == "pass")
+            nfail = sum(1 for c in cases if not c[3] and c[4] != "pass")
+            nskip = sum(1 for c in cases if c[3])
+            parts = s.split(order)
+            parts = parts[:1] if filt else parts
+            want_cases = 2 * len(parts)
+            for kind, i in (x for part in parts for x in part):
+                for ti in ([i] if kind == "t" else s.groups[i]["tests"]):
+                    want_cases += len(s.tests[ti]["scopes"])
+            if npass + nfail + nskip != len(cases) or len(cases) != want_cases:
+                ctx.violation("passed + failed + skipped = %d + %d + %d but %d (test, scope) pairs were to be run" % (npass, nfail, nskip, want_cases), replay)
+            if (ex != 0) != (nfail > 0):
+                ctx.violation("exit status %d with %d failed cases" % (ex, nfail), replay)
+            if counter[3] != nskip:
+                ctx.violation("summary.skips = %d but %d cases are skipped" % (counter[3], nskip), replay)
+            for name, cs in by_test(cases).items():
+                key = (si, name)
+                if key not in ref:
+                    ref[key] = (cs, replay)
+                elif ref[key][0] != cs:
+                    ctx.violation("the cases of %s depend on order / subset / coverage: %s vs %s" % (name, str(ref[key][0])[:300], str(cs)[:300]),
+                                  dict(replay, other=ref[key][1]))
+            # ---- against the model
+            if (cases, counter, ex) != mod:
+                what = "cases" if cases != mod[0] else ("counters %s vs model %s" % (counter, mod[1]) if counter != mod[1] else "exit status")
+                d = next((("%s vs model %s" % (a, b)) for a, b in zip(cases, mod[0]) if a != b), "")
+                ctx.violation("test runner and model disagree on %s %s" % (what, d[:400]), replay)
             else:
                 agree += 1
-                n_abort += 1
-            continue
-        cases, counter, ex = api
-        n_cases += len(cases)
-        # ---- direct oracle on the implementation
-        npass = sum(1 for c in cases if not c[3] and c[4] == "pass")
-        nfail = sum(1 for c in cases if not c[3] and c[4] != "pass")
-        nskip = sum(1 for c in cases if c[3])
-        want_cases = 2
-        for kind, i in order:
-            for ti in ([i] if kind == "t" else s.groups[i]["tests"]):
-                want_cases += len(s.tests[ti]["scopes"])
-        if npass + nfail + nskip != len(cases) or len(cases) != want_cases:
-            ctx.violation("passed + failed + skipped = %d + %d + %d but %d (test, scope) pairs were to be run" % (npass, nfail, nskip, want_cases), replay)
-        if (ex != 0) != (nfail > 0):
-            ctx.violation("exit status %d with %d failed cases" % (ex, nfail), replay)
-        if counter[3] != nskip:
-            ctx.violation("summary.skips = %d but %d cases are skipped" % (counter[3], nskip), replay)
-        for name, cs in by_test(cases).items():
-            key = (si, name)
-            if key not in ref:
-                ref[key] = (cs, replay)
-            elif ref[key][0] != cs:
-                ctx.violation("the cases of %s depend on order / subset / coverage: %s vs %s" % (name, str(ref[key][0])[:300], str(cs)[:300]),
-                              dict(replay, other=ref[key][1]))
-        # ---- against the model
-        if (cases, counter, ex) != mod:
-            what = "cases" if cases != mod[0] else ("counters %s vs model %s" % (counter, mod[1]) if counter != mod[1] else "exit status")
-            d = next((("%s vs model %s" % (a, b)) for a, b in zip(cases, mod[0]) if a != b), "")
-            ctx.violation("test runner and model disagree on %s %s" % (what, d[:400]), replay)
-        else:
-            agree += 1
-            nontrivial.add((replay["main.vcl"], replay["main.test.vcl"], cov))
-            if order == its and cov == 0:
-                for c in cases:
-                    verdicts["skip" if c[3] else c[4]] += 1
+                nontrivial.add(hashlib.sha1((replay["main.vcl"] + replay["main.test.vcl"] + str(cov)).encode()).digest()[:8])
+                if order == its and cov == 0 and not filt:
+                    for c in cases:
+                        verdicts["skip" if c[3] else c[4]] += 1
 
+        if len(ctx.violations) - violations_before >= 40:
+            break
     # ------------------------------------------------------------------ the real process
     n_cli = 0
     cli_suites = suites if thorough else suites[:14] + suites[-5:]
@@ -274,11 +334,15 @@ def run(ctx):
         if si % 2:
             rng.shuffle(order)
         mainv, testv = s.main_vcl(), s.test_vcl(order)
-        sim = sim_expected(s, order)
+        filt = s.nfiles > 1 and si % 4 == 1
+        sim = sim_expected(s, order, filt)
         for cov in (0, 1):
-            rc, out, err = cli_run(falco, os.path.join(work, "cli"), mainv, testv, cov)
+            tr = s.tree(order, cov, only_first_file=filt)
+            rc, out, err = cli_run(falco, os.path.join(work, "cli"), tr)
             n_cli += 1
-            replay = {"main.vcl": mainv, "main.test.vcl": testv, "coverage": bool(cov), "cmd": "falco test -json%s main.vcl" % (" --coverage" if cov else "")}
+            replay = {"files": tr["files"], "main.vcl": tr["files"]["main.vcl"], "main.test.vcl": testv, "coverage": bool(cov), "layout": s.layout,
+                      "cmd": "falco test -json%s%s%s main.vcl" % (" --coverage" if cov else "", "".join(" -I " + d for d in tr["include_paths"]),
+                                                                 " --filter " + tr["filter"] if tr["filter"] else "")}
             pj = parse_cli_json(out)
             if sim == "abort":
                 if pj is not None or rc == 0:
@@ -292,7 +356,7 @@ def run(ctx):
                 ctx.violation("falco test -json differs from the expected report: exit %d (expected %d), summary %s (expected %s), suites %s" % (
                     rc, sim[2], counter, sim[1], "equal" if cases == coarse(sim[0]) else "differ"), dict(replay, stdout=out[:3000]))
         if si % 3 == 0 and sim != "abort":
-            rc, out, err = cli_run(falco, os.path.join(work, "cli"), mainv, testv, 0, as_json=False)
+            rc, out, err = cli_run(falco, os.path.join(work, "cli"), s.tree(order, 0, only_first_file=filt), as_json=False)
             n_cli += 1
             m = re.search(r"(\d+) passed, (\d+) failed, (\d+) skipped, (\d+) total, (\d+) assertions", re.sub(r"\x1b\[[0-9;]*m", "", out + err))
             exp = sim[0]
@@ -307,24 +371,28 @@ def run(ctx):
     if not proved and len(ctx.violations) == violations_before:
         ctx.violation("proof obligation of C10 no longer checks: " + (ctx.broken or "Props/C10.v"),
                       {"no_failing_input": True, "broken": ctx.broken,
-                       "searched": "%d runs of the test runner agree with the model; no order / coverage dependence" % len(reqs)})
+                       "searched": "%d runs of the test runner agree with the model; no order / coverage dependence" % n_api})
     s0 = suites[0]
     ctx.samples = [{"main.vcl": s0.main_vcl()[:1200], "main.test.vcl": s0.test_vcl(s0.items())[:1200]}]
     ctx.coverage.update({
-        "evaluations": len(reqs) + n_cli,
+        "evaluations": n_api + n_cli,
         "distinct_nontrivial": len(nontrivial),
-        "suites": len(suites), "api_runs": len(reqs), "api_runs_agreeing_with_model": agree, "cases_checked": n_cases,
+        "suites": len(suites), "api_runs": n_api, "api_runs_agreeing_with_model": agree,
+        "watchdog": dict(watchdog, policy="a hang / died reply is re-run alone (twice, 4x the limit) and only reported when it reproduces; "
+                                          "a process run that times out is run again with a 10 minute limit"), "cases_checked": n_cases,
         "process_runs": n_cli, "corpus_known_cases": n_corpus,
         "orders_per_suite": {"<=5 tests": "every order (quick: 41 of 120 for 5 tests) + subsets", ">5 tests": "31 random orders / subsets"},
         "verdicts_in_first_order": verdicts,
         "cache_shape_facts_checked": n_cache_facts,
         "dimension_counts": {"suites_with_describe_groups_and_hooks": len(suites) - n_before_groups,
-                             "api_runs_on_grouped_suites": sum(1 for (si, _, _) in meta if si >= n_before_groups),
+                             "api_runs_on_grouped_suites": n_api_grouped,
                              "runs_aborted_by_a_raising_hook (runner and model agree)": n_abort,
                              "group_stats": {k: v for k, v in sorted(g.stats.items()) if k.startswith("group")},
-                             "suites_without_helpers": n_plain, "resource_suites (one per helper, all mutator pairs)": len(T.RES),
-                             "stateful_suites": n_before_groups - n_plain - len(T.RES),
-                             "api_runs_on_helper_suites": sum(1 for (si, _, _) in meta if n_plain <= si < n_before_groups),
+                             "suites_without_helpers": n_plain, "resource_suites (one per helper and layout, all mutator pairs)": n_res_suites,
+                             "api_runs_by_layout_of_the_main_vcl": layouts, "api_runs_by_number_of_test_files": nfiles_runs,
+                             "runs_with_--filter": n_filter,
+                             "stateful_suites": n_before_groups - n_plain - n_res_suites,
+                             "api_runs_on_helper_suites": n_api_helper,
                              "helper_steps": {k: v for k, v in sorted(g.stats.items()) if k.startswith(("helper:", "observe", "resource-suite:"))}},
         "generator_stats": dict(sorted(g.stats.items())),
     })
@@ -347,7 +415,7 @@ def group_scope_check(ctx, impl):
                                  ("ungrouped a,b", [], [("t", 0), ("t", 1)]), ("ungrouped b,a", [], [("t", 1), ("t", 0)])):
         s.groups = [{"name": 7, "before": {}, "after": {}, "tests": ts} for ts in groups]
         o = order or s.items()
-        rep = V.run_batch(impl, ["0 %s %s" % (s.main_vcl().encode().hex(), s.test_vcl(o).encode().hex())], hang_s=30)[0]
+        rep = U.robust_batch(impl, ["0 %s %s" % (s.main_vcl().encode().hex(), s.test_vcl(o).encode().hex())], hang_s=120)[0][0]
         api = parse_api(rep)
         res[label] = None if api in (None, "abort") else next((c[4] for c in api[0] if c[1] == "T1"), None)
     want = {"grouped a,b": "assert", "grouped b,a": "pass", "ungrouped a,b": "pass", "ungrouped b,a": "pass"}
@@ -423,7 +491,7 @@ def corpus_known(ctx, falco, work):
         if os.path.isfile(os.path.join(p, "expect")):
             # a repaired defect: the report must be the recorded one
             exp = json.load(open(os.path.join(p, "expect")))
-            rc, out, err = cli_run(falco, os.path.join(work, "cli"), mainv, testv, 0)
+            rc, out, err = cli_run(falco, os.path.join(work, "cli"), flat_tree(mainv, testv, 0))
             pj = parse_cli_json(out)
             if pj is None or rc != exp["exit"] or list(pj[1]) != exp["summary"]:
                 ctx.violation("corpus/C10/%s: exit %d summary %s, expected exit %d summary %s (a repaired defect is back)" % (
@@ -432,7 +500,7 @@ def corpus_known(ctx, falco, work):
         kind = open(os.path.join(p, "kind")).read().strip()
         res = []
         for cov in (0, 1):
-            rc, out, err = cli_run(falco, os.path.join(work, "cli"), mainv, testv, cov)
+            rc, out, err = cli_run(falco, os.path.join(work, "cli"), flat_tree(mainv, testv, cov))
             pj = parse_cli_json(out)
             res.append((rc, pj))
         if res[0] != res[1]:
